@@ -96,9 +96,12 @@ def _runner(cfg):
         noise2 = type(fe.noise)(fe.noise.mean_flat + 1.0, fe.noise.cholesky_flat, fe.noise.tree_flatten)
         fe2 = type(fe)(fe.A, noise2, fe.to_latent, fe.to_observed)
         ep_fe = est(prev, dataclasses.replace(prop, fun_evals=fe2))
+        noise3 = type(fe.noise)(fe.noise.mean_flat * 1.37 + 0.123, fe.noise.cholesky_flat, fe.noise.tree_flatten)
+        fe3 = type(fe)(fe.A, noise3, fe.to_latent, fe.to_observed)
+        ep_fe2 = est(prev, dataclasses.replace(prop, fun_evals=fe3))
         pm, _ = prev.u.to_multivariate_normal()
         qm, _ = prop.u.to_multivariate_normal()
-        return dict(ep=ep, ep_cov=ep_cov, ep_fe=ep_fe, prev_mean=pm, prop_mean=qm, t_prev=prev.t)
+        return dict(ep=ep, ep_cov=ep_cov, ep_fe=ep_fe, ep_fe2=ep_fe2, prev_mean=pm, prop_mean=qm, t_prev=prev.t)
 
     fn = jax.jit(run)
     _CACHE[key] = fn
@@ -137,41 +140,54 @@ def check_case(case):
     dt, atol, rtol, damp = case["dt"], case["atol"], case["rtol"], case["damp"]
 
     # ---- reference -------------------------------------------------------------------------
-    N = K.Num(mp=False)
-    spec = ssmcase.make_spec(case)
+    # 50-digit arithmetic throughout: the covariance-form expressions below cancel heavily
+    # (the library works in square-root form, which does not)
+    N = K.Num(mp=True)
+    spec = ssmcase.make_spec(case, mp=True)
     m_prev = np.asarray(out["prev_mean"], float)
     m_prop = np.asarray(out["prop_mean"], float)
     if not (np.all(np.isfinite(m_prev)) and np.all(np.isfinite(m_prop))):
         raise common.Inconclusive("solver step not finite (dynamic calibration with zero residual, F8 class)")
     q = n - 1
     Phi1, Q1 = K.iwp_1d(q, dt, N)
-    Phi = np.kron(Phi1, np.eye(d))
-    Q = np.kron(Q1, np.diag(np.asarray(base_vec, float) ** 2))
-    mu = Phi @ m_prev
+    Phi = K.kron(Phi1, N.eye(d))
+    Dg = N.zeros(d, d)
+    for a in range(d):
+        Dg[a, a] = N.num(float(base_vec[a])) ** 2
+    Q = K.kron(Q1, Dg)
+    mu = Phi @ N.arr(m_prev)
     t_new = float(out["t_prev"]) + dt
     H, b = spec.linearise(mu, t_new)
     z = H @ mu + b
-    S = H @ Q @ H.T + damp**2 * np.eye(d)
-    zabs = np.abs(H) @ np.abs(mu) + np.abs(b)
-    with np.errstate(all="ignore"):
-        try:
-            sigma = spec.whitened_rms(z, S)
-        except (ZeroDivisionError, np.linalg.LinAlgError) as err:
-            raise common.Inconclusive("local scale undefined (singular innovation)") from err
-    if not np.all(np.isfinite(np.atleast_1d(sigma))) or np.any(np.atleast_1d(sigma) <= 0):
+    S = H @ Q @ H.T
+    for a in range(d):
+        S[a, a] = S[a, a] + N.num(damp) ** 2
+    zabs = N.to_float(np.abs(H) @ np.abs(mu) + np.abs(b))
+    try:
+        sigma = spec.whitened_rms(z, S)
+    except (ZeroDivisionError, np.linalg.LinAlgError) as err:
+        raise common.Inconclusive("local scale undefined (singular innovation)") from err
+    sigma = N.to_float(np.atleast_1d(np.asarray(sigma, dtype=object)))
+    z = N.to_float(z)
+    if not np.all(np.isfinite(sigma)) or np.any(sigma <= 0):
         raise common.Inconclusive("local scale is zero (exactly vanishing residual)")
+    Sf, Qf = N.to_float(S), N.to_float(Q)
     if e["kind"] == "residual":
-        std = np.sqrt(np.diag(S))
+        std = np.sqrt(np.diag(Sf))
         if fact == "isotropic":
-            std = np.ones(d) * np.sqrt(S[0, 0])
+            std = np.ones(d) * np.sqrt(Sf[0, 0])
         n_exp = order + (1 if e["per_unit_step"] else 0)
         idx = 0
     else:
         idx = int(e.get("derivative_idx", 0))
-        Kg = np.linalg.solve(S.T, (Q @ H.T).T).T
-        Pc = Q - Kg @ S @ Kg.T
+        try:
+            Kg = N.solve(S.T, (Q @ H.T).T).T
+        except ZeroDivisionError as err:
+            raise common.Inconclusive("local scale undefined (singular innovation)") from err
+        Pc = N.to_float(Q - Kg @ S @ Kg.T)
         std = np.sqrt(np.clip(np.diag(Pc)[idx * d : (idx + 1) * d], 0, None))
         n_exp = idx + (1 if e["per_unit_step"] else 0)
+    Q = Qf
     err = np.atleast_1d(sigma) * std
     ref = np.maximum(np.abs(m_prev[idx * d : (idx + 1) * d]), np.abs(m_prop[idx * d : (idx + 1) * d]))
     err_abs = err * dt**n_exp / math.factorial(n_exp)
@@ -186,11 +202,11 @@ def check_case(case):
     res.nontrivial = 1e-3 < ep_ref < 1e3
 
     kappa = float(np.max(zabs / np.maximum(np.abs(z), 1e-300))) * np.finfo(float).eps
-    tol = max(1e-8, 100.0 * kappa)
+    tol = max(1e-8 if e["kind"] == "residual" else 2e-5, 100.0 * kappa)
     if e["kind"] == "state":
-        # the conditioned covariance Q - K S K^T cancels as well
-        cancel = float(np.max(np.diag(Q)[idx * d : (idx + 1) * d] / np.maximum(std**2, 1e-300))) * np.finfo(float).eps
-        tol = max(tol, 100.0 * cancel)
+        # the library's square-root update loses eps * sqrt(cancellation) digits in the conditioned std
+        cancel = float(np.sqrt(np.max(np.diag(Q)[idx * d : (idx + 1) * d] / np.maximum(std**2, 1e-300)))) * np.finfo(float).eps
+        tol = max(tol, 1e3 * cancel)
     if tol > 1e-3:
         raise common.Inconclusive("estimate ill-conditioned (cancellation in the residual)")
     rel = abs(ep - ep_ref) / ep_ref if np.isfinite(ep) else np.inf
@@ -202,12 +218,14 @@ def check_case(case):
     ep_cov = float(out["ep_cov"])
     if not abs(ep_cov - ep) <= 1e-12 * abs(ep):
         res.violate("uses_previous_covariance", f"estimate changes ({ep!r} -> {ep_cov!r}) when only the previous covariance is replaced")
-    ep_fe = float(out["ep_fe"])
+    ep_fe, ep_fe2 = float(out["ep_fe"]), float(out["ep_fe2"])
+    same1, same2 = abs(ep_fe - ep) <= 1e-12 * abs(ep), abs(ep_fe2 - ep) <= 1e-12 * abs(ep)
     if e["relin"]:
-        if not abs(ep_fe - ep) <= 1e-12 * abs(ep):
+        if not (same1 and same2):
             res.violate("relin:uses_cache", "re-linearisation was requested but the estimate follows the cached linearisation")
     else:
-        if abs(ep_fe - ep) <= 1e-12 * abs(ep):
+        # two different perturbations of the cached linearisation: both leaving the estimate unchanged is no coincidence
+        if same1 and same2:
             res.violate("cached:ignores_cache", "cached linearisation was requested but the estimate ignores it")
     # base-scale invariance (exact only without damping and with a noise-free initial state)
     if damp == 0.0 and cfg["init"] == "exact" and cfg["calib"] in ("none", "mle", "mle_nocorr"):
